@@ -515,7 +515,61 @@ def asserted_parameters(rep, idx, rule="C19.21"):
                                     refusals.append(x)
                         what = f"{f.cls.qual}({q}=...) reaches `assert {ast.unparse(a.test)[:70]}` in {g.qual}"
                         if refusals:
-                            rep.ok(rule, init.site, what, f"the constructor refuses on `{q}` first (line {refusals[0].lineno})", nontrivial=False)
+                            # the refusal has to cover what the assert demands: every value that falsifies the assert is refused
+                            verdict, detail = None, ""
+                            try:
+                                from .common import get_fn, refuses
+
+                                class _Ren(ast.NodeTransformer):
+                                    def visit_Name(self, node):
+                                        return ast.copy_location(ast.Name(id=q, ctx=node.ctx), node) if node.id == p else node
+                                import copy as _copy
+                                atext = ast.unparse(_Ren().visit(_copy.deepcopy(a.test)))
+                                only_q = {x.id for x in ast.walk(a.test) if isinstance(x, ast.Name)} - {p} <= \
+                                    {"isinstance", "int", "str", "bool", "len", "None", "tuple", "list", "dict", "set", "frozenset", "float"}
+                                if only_q:
+                                    verdict, detail = refuses(get_fn(idx, init), f"not ({atext})", None)
+                            except Exception as e_:
+                                verdict, detail = None, f"{type(e_).__name__}: {e_}"
+                            helper_calls = [x for x in refusals if isinstance(x, ast.Call)]
+                            if verdict is not True and helper_calls:
+                                # the validation sits in a helper: decide it there, with the helper's own name for the value
+                                verdict = None
+                                for x in helper_calls:
+                                    try:
+                                        if isinstance(x.func, ast.Attribute):
+                                            h = idx.lookup_method(f.cls, x.func.attr)
+                                        else:
+                                            h = idx.resolve_function(f.module, x.func.id)
+                                        hp = [p_ for p_ in h.params if p_ not in ("self", "cls")]
+                                        hb = dict(zip(hp, x.args))
+                                        hb.update({k.arg: k.value for k in x.keywords if k.arg})
+                                        hq = next((k_ for k_, v_ in hb.items() if isinstance(v_, ast.Name) and v_.id == q), None)
+                                        if hq is None:
+                                            continue
+
+                                        class _Ren2(ast.NodeTransformer):
+                                            def visit_Name(self, node):
+                                                return ast.copy_location(ast.Name(id=hq, ctx=node.ctx), node) if node.id == p else node
+                                        htext = ast.unparse(_Ren2().visit(_copy.deepcopy(a.test)))
+                                        v2, d2 = refuses(get_fn(idx, h), f"not ({htext})", None)
+                                        if v2:
+                                            verdict, detail = True, f"in {h.qual}: {d2}"
+                                            break
+                                        detail = f"in {h.qual}: {d2}"
+                                    except Exception as e_:
+                                        detail = f"{type(e_).__name__}: {e_}"
+                            if verdict is False:
+                                rep.bad(rule, init.site, what,
+                                        f"the constructor tests `{q}` (line {refusals[0].lineno}) but does not refuse every value for which "
+                                        f"`{atext}` is false: such a value is accepted and the component fails with a bare AssertionError when it "
+                                        f"is elaborated ({detail})", line=refusals[0].lineno)
+                            elif verdict is None and detail:
+                                rep.unk(rule, init.site, what, f"the constructor tests `{q}` (line {refusals[0].lineno}); whether the refusal covers "
+                                        f"the assert is not decided: {detail}")
+                            else:
+                                rep.ok(rule, init.site, what, f"the constructor refuses on `{q}` first (line {refusals[0].lineno})"
+                                       + (f": {detail}" if verdict else ""), nontrivial=False)
                         else:
                             rep.bad(rule, init.site, what,
                                     f"the public parameter `{q}` is stored and handed on unchecked; the only statement about its legal values is this "
